@@ -1316,7 +1316,9 @@ class PathLossMetisPS7(PathLossIndoorBase):
 
     def which_distance_dB(
             self, PL: NumberOrArray) -> NumberOrArray:  # pragma: nocover
-        pass
+        # The path loss also depends on the number of walls
+        raise NotImplementedError("which_distance_dB is not available for "
+                                  "this path loss model")
 
     def _calc_deterministic_path_loss_dB(  # type: ignore
             self,
